@@ -147,6 +147,7 @@ func main() {
 		}
 	case "verify":
 		fl := flag.NewFlagSet("verify", flag.ExitOnError)
+		wantP := fl.String("p", "", "verify as under `check <property>` (property-scoped clauses)")
 		quick := fl.Int("t", 10, "solver timeout (s)")
 		verbose := fl.Bool("v", false, "list every obligation")
 		models := fl.Bool("m", false, "ask for a concrete model of every failed obligation")
@@ -173,7 +174,7 @@ func main() {
 				bad++
 				continue
 			}
-			o := verifyOne(p, sp, fs, "", *keep, runtime.NumCPU(), 3, *quick)
+			o := verifyOne(p, sp, fs, *wantP, *keep, runtime.NumCPU(), 3, *quick)
 			bad += printOutcome(o, *verbose, *models)
 		}
 		if bad > 0 {
